@@ -1,6 +1,6 @@
 (* Entry point of the extracted model for the correspondence check: one function from
    (function id, arguments) to the canonical observation string the Go harness records. *)
-From Wire Require Import Base.Bytes Model.Converters Model.Validators Model.GoV Model.Codec Model.DL Model.Message Model.Writer Model.Reader Model.Server Spec.Faim Spec.Rules.
+From Wire Require Import Base.Bytes Model.Converters Model.Validators Model.GoV Model.Codec Model.DL Model.Message Model.Writer Model.Reader Model.Server Model.Json Spec.Faim Spec.Rules.
 From WireGen Require Import Tags Verify.
 
 Definition str (s : string) : bytes := list_byte_of_string s.
@@ -317,6 +317,34 @@ Definition run_prop (name : bytes) (args : list bytes) : bytes :=
     end
   else bs "unmodelled".
 
+
+(* ---- JSON ---- *)
+Definition path_str (p : Json.path) : bytes := join_with (bs ".") (map str p).
+Definition entry_str (en : Json.path * leaf) : bytes :=
+  path_str (fst en) ++ x3d :: match snd en with LStr s => x53 :: hx s | LNull => bs "N" | LObj => bs "O" end.
+Definition doc_str (j : jdoc) : bytes := join_with (bs ";") (sort_lines (map entry_str j)).
+
+Fixpoint split_dots (s : bytes) (cur : bytes) : list bytes :=
+  match s with
+  | [] => [rev cur]
+  | b :: t => if beqb b x2e then rev cur :: split_dots t [] else split_dots t (b :: cur)
+  end.
+
+Fixpoint doc_of_args (args : list bytes) : jdoc :=
+  match args with
+  | p :: k :: v :: r =>
+      (map string_of_list_byte (split_dots p []),
+       if bytes_eqb k (bs "S") then LStr v else if bytes_eqb k (bs "N") then LNull else LObj) :: doc_of_args r
+  | _ => []
+  end.
+
+Definition run_json (name : bytes) (args : list bytes) : bytes :=
+  if bytes_eqb name (bs "encode") then
+    match decode_msg args with Some m => doc_str (encode_msg m) | None => bs "bad-args" end
+  else if bytes_eqb name (bs "decode") then
+    msg_str (Json.decode_msg (doc_of_args args) None)
+  else bs "unknown-function".
+
 (* ---- HTTP histories ---- *)
 Definition optarg (a : bytes) : option bytes := if bytes_eqb a (bs "~") then None else Some a.
 
@@ -453,6 +481,7 @@ Definition run (fn : bytes) (args : list bytes) : bytes :=
   else if bytes_eqb kind (bs "http") then
     (if bytes_eqb name (bs "sched") then run_sched args else join_bar (run_http (S (length args)) args Server.init []))
   else if bytes_eqb kind (bs "read") then run_read args
+  else if bytes_eqb kind (bs "json") then run_json name args
   else if bytes_eqb kind (bs "prop") then run_prop name args
   else if bytes_eqb kind (bs "msg") then
     (if bytes_eqb name (bs "write") then run_write args
@@ -544,6 +573,9 @@ Definition prop_owner (name : bytes) : list string :=
   else if bytes_eqb name (bs "text-reread") then ["C02"%string]
   else if bytes_eqb name (bs "http-status-documented") || bytes_eqb name (bs "http-error-body-json") || bytes_eqb name (bs "http-log-isolation")
           || bytes_eqb name (bs "http-race-free") || bytes_eqb name (bs "http-no-panic") then ["C18"%string]
+  else if bytes_eqb name (bs "json-roundtrip") || bytes_eqb name (bs "json-client-agree") then ["C14"%string]
+  else if bytes_eqb name (bs "total") then ["C03"%string]
+  else if bytes_eqb name (bs "pure") || bytes_eqb name (bs "shared-race-free") || bytes_eqb name (bs "shared-same-results") then ["C13"%string]
   else if bytes_eqb name (bs "http-faithful") then ["C17"%string]
   else if bytes_eqb name (bs "http-options-agree") then ["C12"%string]
   else if bytes_eqb name (bs "http-linearizable") then ["C16"%string]
